@@ -1,11 +1,12 @@
 /- line-protocol driver for the solver model (used by C04, C05, C15, C06).
    input: blocks separated by `---`; ops, one per line:
      init <θ0> <plain|closure> <nTrain> <nValid> <nMetrics>
+     addl <0|1>                               -- the solver overrides additional_loss (scripted formula) or not
      override <train 0|1> <idx> <value>      -- per-draw loss override (ignores θ and lossId)
      sched <call> <epoch> <action...>        -- actions: stop | batches <n> | opt <plain|closure> | loss <id>
      fit <maxEpochs>
    output: per executed epoch one `E …` dump line; after each fit `F …` (final dump, and whether stepping epoch by
-   epoch agrees with the model's `fit`) and `LOG …` (events of that fit call, oldest first); `---` per block. -/
+   epoch agrees with the model's `fit`) `LOG …` (events of that fit call, oldest first) and `GRADS […]` (the `.grad` seen by each optimiser step of that call); `---` per block. -/
 import NdeVerif.Model.Solver
 import NdeVerif.Model.Solution
 import NdeVerif.Model.Persist
@@ -22,11 +23,18 @@ def plainFormula (k : Nat) : Int := ((k : Int) * 5) % 7 - 3
 def closureFormula (k : Nat) : List Int :=
   (List.range (1 + k % 3)).map (fun j => (((k + j : Nat) : Int) % 5) - 2)
 
-def mkCfg (nMetrics : Nat) (ov : List (Bool × Nat × Int)) : Cfg :=
-  { loss := fun l θ t i => match ov.find? (fun e => e.1 == t && e.2.1 == i) with
+def addlFormula (θ : Int) (train : Bool) (idx : Nat) : Int :=
+  ((θ * 5 + (idx : Int) * 3 + (if train then 2 else 0)) % 5) * 12
+
+def gradFormula (lossId : Nat) (θ : Int) (_train : Bool) (idx : Nat) : Int :=
+  ((θ * 3 + (idx : Int) * 7 + (lossId : Int) * 5) % 9) - 4
+
+def mkCfg (nMetrics : Nat) (ov : List (Bool × Nat × Int)) (addl : Bool) : Cfg :=
+  { userLoss := fun l θ t i => match ov.find? (fun e => e.1 == t && e.2.1 == i) with
       | some e => e.2.2
       | none => lossFormula l θ t i
-    metric := metricFormula, nMetrics := nMetrics, plainStep := plainFormula, closureShifts := closureFormula }
+    metric := metricFormula, nMetrics := nMetrics, plainStep := plainFormula, closureShifts := closureFormula,
+    addl := if addl then addlFormula else fun _ _ _ => 0, gradOf := gradFormula }
 
 def showOpt : Option Int → String
   | none => "None"
@@ -70,6 +78,7 @@ structure DState where
   call : Nat
   out : List String
   sols : List (Option Sol) := []
+  addl : Bool := false
 
 def schedFn (l : List (Nat × Nat × List Action)) : Nat → Nat → List Action :=
   fun c e => (l.filter (fun x => x.1 == c && x.2.1 == e)).flatMap (·.2.2)
@@ -83,11 +92,12 @@ def stepLoop (c : Cfg) (sched : Nat → Nat → List Action) (call : Nat) : Nat 
 def runOp (d : DState) (line : String) : DState :=
   match line.splitOn " " with
   | ["init", θ0, k, nT, nV, nM] =>
-    { d with s := init θ0.toInt! (parseKind k) nT.toNat! nV.toNat! nM.toNat!, nMetrics := nM.toNat!, ov := [], sched := [], call := 0, sols := [] }
+    { d with s := init θ0.toInt! (parseKind k) nT.toNat! nV.toNat! nM.toNat!, nMetrics := nM.toNat!, ov := [], sched := [], call := 0, sols := [], addl := false }
+  | ["addl", b] => { d with addl := b == "1" }
   | ["override", t, i, v] => { d with ov := d.ov ++ [(t == "1", i.toNat!, v.toInt!)] }
   | "sched" :: c :: e :: acts => { d with sched := d.sched ++ [(c.toNat!, e.toNat!, parseActions acts)] }
   | ["fit", m] =>
-    let c := mkCfg d.nMetrics d.ov
+    let c := mkCfg d.nMetrics d.ov d.addl
     let sf := schedFn d.sched
     let m := m.toNat!
     let s0 := { d.s with log := [] }
@@ -95,7 +105,8 @@ def runOp (d : DState) (line : String) : DState :=
     let s2 := fit c sf d.call m s0
     let agree := dump s1 == dump s2 && s1.log == s2.log
     let log := " ".intercalate (s1.log.reverse.filterMap showEvent)
-    { d with s := s1, call := d.call + 1, out := ("LOG " ++ log) :: (s!"F agree={agree} " ++ dump s1) :: out }
+    let grads := "GRADS " ++ showList (gradTrace c s1.log).2
+    { d with s := s1, call := d.call + 1, out := grads :: ("LOG " ++ log) :: (s!"F agree={agree} " ++ dump s1) :: out }
   | ["save", ok, k] =>
     let r := save (ok == "1") k.toNat! d.s
     { d with s := r.1, out := s!"SAVE wrote={r.2.isSome} {dump r.1}" :: d.out }
@@ -122,7 +133,7 @@ partial def readAll (h : IO.FS.Stream) (acc : List String) : IO (List String) :=
 
 def main : IO Unit := do
   let ls ← readAll (← IO.getStdin) []
-  let mut d : DState := ⟨init 0 .plain 1 1 0, 0, [], [], 0, [], []⟩
+  let mut d : DState := ⟨init 0 .plain 1 1 0, 0, [], [], 0, [], [], false⟩
   for l in ls do
     if l == "---" then
       for o in d.out.reverse do IO.println o
